@@ -81,3 +81,15 @@ claim("C20",
       "paths; that the only coordinate write is zero on padding rows and free of batch reductions.",
       "Does not decide monotone descent. Assumes force = -dE/dx and zero on padding (C01). Report statements are found by their message literals.",
       "DESIGN.md section 4, C20")
+
+claim("C03",
+      "counter-rule loop-boundedness over per-function CFGs (all `while` loops in seqm/ and scripts/), def-use pass-through of the convergence flag, "
+      "boolean dataflow of the convergence mask, constant folding of thresholds",
+      "Decides termination structurally for every `while` loop in the package (counter stepped on every cycle and compared with an "
+      "invariant bound, or end-of-file I/O loop), that the per-molecule flag returned to the caller is exactly the result of the "
+      "convergence test in every driver and through every layer up to Electronic_Structure.notconverged, that the test contains "
+      "all four criteria against eps times a bounded module constant combined by `|`, that eps reaches it unchanged, and that "
+      "MAX_ITER caps every driver.",
+      "Does not decide that a flagged-converged density is idempotent / commuting / trace-correct to O(eps), nor termination of "
+      "library calls. Trusted: sa.loops counter rule, CFG builder.",
+      "DESIGN.md section 4, C03")
